@@ -248,6 +248,32 @@ func (rs *bodyStream) skipRest() error {
 		}
 
 		strCRLFLen := len(bytestr.StrCRLF)
+		// The handler stopped in the middle of a chunk: what follows is the rest of
+		// that chunk's data (and its CRLF), not a chunk-size line.
+		for rs.chunkLeft > 0 {
+			skip := rs.reader.Len()
+			if skip == 0 {
+				if _, err := rs.reader.Peek(1); err != nil {
+					return err
+				}
+				skip = rs.reader.Len()
+			}
+			if skip > rs.chunkLeft {
+				skip = rs.chunkLeft
+			}
+			if err := rs.reader.Skip(skip); err != nil {
+				return err
+			}
+			if err := rs.reader.Release(); err != nil {
+				return err
+			}
+			rs.chunkLeft -= skip
+			if rs.chunkLeft == 0 {
+				if err := utils.SkipCRLF(rs.reader); err != nil {
+					return err
+				}
+			}
+		}
 		for {
 			chunkSize, err := utils.ParseChunkSize(rs.reader)
 			if err != nil {
